@@ -300,9 +300,76 @@ Proof.
   destruct (Shell.str_eqb n (Shell.s2z "format")) eqn:E2;
     change (Shell.str_eqb n (Shell.s2z "format")) with (zeqb n [102; 111; 114; 109; 97; 116]) in E2;
   destruct cur as [b|s0|z];
+  unfold PS, parser_ref, cls_str, cls_int in Hb, Hf, Hs, Hi; cbn [Nat.add] in Hb, Hf;
   repeat (progress (cbn -[assoc enc_fields set_field Shell.parse_bool Shell.parse_format Shell.py_int];
-                    rewrite ?H, ?P0, ?P1, ?P2, ?P3, ?E1, ?E2));
-  rewrite ?Hb, ?Hf, ?Hs, ?Hi.
-  Show.
-Abort.
+                    rewrite ?app_nil_r, ?H, ?P0, ?P1, ?P2, ?P3, ?E1, ?E2, ?Hb, ?Hf, ?Hs, ?Hi)).
+  all: try solve [apply zeqb_eq in E1; apply zeqb_eq in E2; congruence].
+  all: repeat match goal with
+       | |- context [Shell.parse_bool ?x] => destruct (Shell.parse_bool x)
+       | |- context [Shell.parse_format ?x] => destruct (Shell.parse_format x)
+       | |- context [Shell.py_int ?x] => destruct (Shell.py_int x)
+       end;
+       cbn -[assoc enc_fields set_field]; try reflexivity;
+       rewrite <- (set_field_update n st _ _ L); reflexivity.
+Qed.
 End Settings.
+
+(* ================================================================ do_set
+   The shell object: its settings (a Settings value) and what it has written so far ($events, rule R10: the pair
+   (channel, text) of every print(.., file=self.outfile) / self.error(..), in order).  [do_set_abs] is Model/Shell.v's
+   do_set with the events kept symbolic; [do_set_abs_ok] shows it IS the model's do_set in every World. *)
+Inductive aev :=
+| AOut (s : list Z)            (* print(s, file=self.outfile) *)
+| AErr (s : list Z)            (* self.error(s) *)
+| AErrExc (m : list Z)         (* self.error(str(ex)): the text is the exception's (m in the model) *)
+| ARaiseValue (m : list Z)     (* ValueError out of shlex.split *)
+| ARaiseIndex.                 (* components[0] of an empty list *)
+
+Definition echo_text (name : list Z) (v : Shell.value) : list Z := name ++ Shell.s2z ": " ++ Shell.getstr v.
+Definition no_var_text (name : list Z) : list Z := Shell.s2z "variable """ ++ name ++ Shell.s2z """ does not exist".
+
+Definition do_set_abs (st : Shell.state) (arg : list Z) : Shell.state * list aev :=
+  match arg with
+  | [] => (st, map (fun nv => AOut (echo_text (fst nv) (snd nv))) st)
+  | _ =>
+    match Shell.shlex_split arg with
+    | Shell.ShNoQuote => (st, [ARaiseValue (Shell.s2z "No closing quotation")])
+    | Shell.ShNoEscaped => (st, [ARaiseValue (Shell.s2z "No escaped character")])
+    | Shell.ShOk [] => (st, [ARaiseIndex])
+    | Shell.ShOk [name] =>
+        match Shell.lookup st name with
+        | Some v => (st, [AOut (echo_text name v)])
+        | None => (st, [AErr (no_var_text name)])
+        end
+    | Shell.ShOk [name; v] =>
+        match Shell.lookup st name with
+        | None => (st, [AErr (no_var_text name)])
+        | Some cur =>
+            match Shell.parse_value name (Shell.type_of cur) v with
+            | inl m => (st, [AErrExc m])
+            | inr new => (Shell.update st name new, [])
+            end
+        end
+    | Shell.ShOk _ => (st, [AErr (Shell.s2z "invalid number of arguments")])
+    end
+  end.
+
+Definition conc (W : Shell.World) (a : aev) : Shell.event W :=
+  match a with
+  | AOut s => Shell.println W Shell.Outfile s
+  | AErr s => Shell.error W s
+  | AErrExc m => Shell.error W m
+  | ARaiseValue m => Shell.ERaise (Shell.XValue m)
+  | ARaiseIndex => Shell.ERaise Shell.XIndex
+  end.
+
+Lemma do_set_abs_ok : forall (W : Shell.World) st arg,
+  Shell.do_set W st arg = (fst (do_set_abs st arg), map (conc W) (snd (do_set_abs st arg))).
+Proof.
+  intros W st arg. unfold Shell.do_set, do_set_abs. destruct arg as [|c r].
+  - cbn [fst snd]. rewrite map_map. reflexivity.
+  - destruct (Shell.shlex_split (c :: r)) as [[|name [|v [|x l]]]| |]; try reflexivity.
+    + destruct (Shell.lookup st name); reflexivity.
+    + destruct (Shell.lookup st name) as [cur|]; [|reflexivity].
+      destruct (Shell.parse_value name (Shell.type_of cur) v); reflexivity.
+Qed.
